@@ -541,3 +541,16 @@ fn c12_pending_funding_fees_any_adjustment_u16() {
     w16::pending_funding_fees(None);
 }
 
+
+// The same statement is a clause of C08 (claimable funding is unpacked rounded DOWN, the payer's
+// fee rounded UP, so claimables stay backed); it is checked under C08 as well since a seeded
+// change of the claimable rounding was missed by the C08 ledger harnesses (which state the
+// pack/unpack inequality on aggregates and do not call `pending_funding_fees`).
+//@ prop=C08 tier=quick kind=hold
+//@ enc=PositionExt::pending_funding_fees, unpack_to_funding_amount_delta, PerpMarketExt::{funding_fee_amount_per_size,claimable_funding_fee_amount_per_size}
+//@ bound=width-reduced T=u8, DECIMALS=1: every u8 market index, position index, size and adjustment, all four side/collateral combinations
+//@ stubs=market/position environment = plain-struct VMarket/VPosition
+#[kani::proof]
+fn c08_pending_funding_fees_rounding_u8() {
+    w8::pending_funding_fees(None);
+}
